@@ -31,7 +31,7 @@ func (c07) ID() string { return "C07" }
 func (c07) Plan(tier string) fw.Plan {
 	p := fw.Plan{
 		Batches: 16, Cases: 10000, TimeoutSec: 900, Level: "exploration",
-		Rule: "one case = one (graph of 1–8 linked blocks: maps, lists, scalars, shared/repeated links, links to raw blocks; random selector AST of depth ≤5 over all clause kinds: matcher, string/bytes subset matcher with negative and out-of-range bounds, explore-all, fields (stated order), index, range, unions incl. overlapping members, recursion with limit none / 0–5, one edge in any legal position, stop-at conditions drawn from the graph's links). The AST is compiled three ways — selector/builder, CompileSelector of the spec tree, and ParseJSONSelector of its DAG-JSON text (whose field order is the encoder's sorted order) — and walked with WalkAdv and WalkMatching; oracle: a reference denotational walk over the abstract graph giving the expected sequence of (path, node value, reason) and of link loads. Non-trivial: ≥4 visits and ≥1 load or a recursion; distinct by hash of (root, selector).",
+		Rule:        "one case = one (graph of 1–8 linked blocks: maps, lists, scalars, shared/repeated links, links to raw blocks; random selector AST of depth ≤5 over all clause kinds: matcher, string/bytes subset matcher with negative and out-of-range bounds, explore-all, fields (stated order), index, range, unions incl. overlapping members, recursion with limit none / 0–5, one edge in any legal position, stop-at conditions drawn from the graph's links). The AST is compiled three ways — selector/builder, CompileSelector of the spec tree, and ParseJSONSelector of its DAG-JSON text (whose field order is the encoder's sorted order) — and walked with WalkAdv and WalkMatching; oracle: a reference denotational walk over the abstract graph giving the expected sequence of (path, node value, reason) and of link loads. Non-trivial: ≥4 visits and ≥1 load or a recursion; distinct by hash of (root, selector).",
 		Assumptions: []string{"lib/ref/sel encodes the specified semantics; where the specification is silent it follows this repository's doc comments and passing tests (edge followed only while remaining depth ≥ 2; explicit interests in the selector's stated order; subset bound normalisation)", "ExploreInterpretAs is outside the property's list"},
 		MinEvents:   []string{"pairs", "walks_adv", "walks_matching", "compiled_via_builder", "compiled_via_json", "visits_compared", "loads_compared", "selectors_with_recursion", "selectors_with_subset", "selectors_with_stopat"},
 	}
